@@ -1030,7 +1030,7 @@ func (u *Unit) havocModifies(st, pre *State, env map[string]Value, c *Clause) {
 				panic(engineError(fmt.Sprintf("%s:%d: modifies item %q is not a location", shortFile(c.File), c.Line, item)))
 			}
 			if lv.kind == lvGhostVar {
-				u.store(st, lv, u.freshValue(nil, "mod_"+lv.name, lv.T))
+				u.store(st, lv, u.freshValue(st, "mod_"+lv.name, lv.T))
 				continue
 			}
 			nv := u.freshValue(st, "mod", lv.T)
